@@ -23,9 +23,6 @@ Record FlagLaws : Prop := {
   rauw_if_nouse : forall c v t p, filter (eval_upred p) (uses M c v) = [] -> p_rauw_if M v t p c = c
 }.
 
-Definition is_cb (a : action) : bool :=
-  match a with ACreateBlock _ _ _ => true | _ => false end.
-
 Lemma map_fst_nil {A B} (l : list (A * B)) : map fst l = [] -> l = [].
 Proof. destruct l; simpl; congruence. Qed.
 
@@ -50,7 +47,7 @@ Proof.
 Qed.
 
 Lemma exec_flag_mono a c r c1 r1 t :
-  exec M a c r = (c1, r1, t) -> flag r = true -> flag r1 = true.
+  exec M true a c r = (c1, r1, t) -> flag r = true -> flag r1 = true.
 Proof.
   destruct a; simpl; intros H Hf.
   - unfold x_insert in H. destruct news; inversion H; subst; reflexivity.
@@ -71,16 +68,16 @@ Proof.
   - unfold x_move_region in H. inversion H; subst; reflexivity.
   - unfold x_inline_region in H. inversion H; subst; reflexivity.
   - unfold x_notify in H. inversion H; subst; reflexivity.
-  - unfold x_create_block in H. inversion H; subst; simpl; exact Hf.
+  - unfold x_create_block in H. inversion H; subst; reflexivity.
 Qed.
 
-(* ---- the action table, column "sets has_done_action": a call other than create_block that
-   leaves the flag unset has changed nothing and called no listener ---- *)
+(* ---- the action table, column "sets has_done_action": a call that leaves the flag unset has
+   changed nothing and called no listener ---- *)
 Lemma exec_unflagged (L : FlagLaws) a c r c1 r1 t :
-  is_cb a = false -> exec M a c r = (c1, r1, t) -> flag r1 = false ->
+  exec M true a c r = (c1, r1, t) -> flag r1 = false ->
   c1 = c /\ r1 = r /\ t = [].
 Proof.
-  intros Hcb H Hf. destruct a; simpl in H; try discriminate Hcb.
+  intros H Hf. destruct a; simpl in H.
   - unfold x_insert in H. destruct news; inversion H; subst; discriminate Hf.
   - unfold x_erase in H. inversion H; subst; discriminate Hf.
   - unfold x_rauw in H.
@@ -108,111 +105,97 @@ Proof.
   - unfold x_move_region in H. inversion H; subst; discriminate Hf.
   - unfold x_inline_region in H. inversion H; subst; discriminate Hf.
   - unfold x_notify in H. inversion H; subst; discriminate Hf.
+  - unfold x_create_block in H. inversion H; subst; discriminate Hf.
 Qed.
 
 (* C11_flag_sound (per call) *)
 Theorem flag_sound (L : FlagLaws) a c r :
-  is_cb a = false -> apply M a c r <> c -> sets_flag M a c r = true.
+  apply M true a c r <> c -> sets_flag M true a c r = true.
 Proof.
-  unfold apply, sets_flag. intros Hcb Hne.
-  destruct (exec M a c r) as [[c1 r1] t] eqn:E. simpl in *.
+  unfold apply, sets_flag. intros Hne.
+  destruct (exec M true a c r) as [[c1 r1] t] eqn:E. simpl in *.
   destruct (flag r1) eqn:Hf; auto.
-  destruct (exec_unflagged L a c r c1 r1 t Hcb E Hf) as [Hc _]. contradiction.
+  destruct (exec_unflagged L a c r c1 r1 t E Hf) as [Hc _]. contradiction.
 Qed.
 
 (* ------------------------------------------------------------------ *)
 (* A match that ends with has_done_action unset is inert.                *)
-Definition steps_nocb (steps : list (pstep M)) : Prop :=
-  forall f, In (PAct M f) steps -> forall c r a, f c r = Some a -> is_cb a = false.
-Definition pat_nocb (p : pattern M) : Prop := forall c o, steps_nocb (p c o).
-Definition matcher_nocb (m : matcher M) : Prop :=
-  match m with
-  | MSingle _ p => pat_nocb p
-  | MGreedy _ _ ps => forall p, In p ps -> pat_nocb p
-  end.
-
 Lemma run_steps_mono recur steps : forall c r w ev c1 r1 w1 ev1,
-  run_steps M recur steps c r w ev = (c1, r1, w1, ev1) -> flag r = true -> flag r1 = true.
+  run_steps M true recur steps c r w ev = (c1, r1, w1, ev1) -> flag r = true -> flag r1 = true.
 Proof.
   induction steps as [|s rest IH]; simpl; intros c r w ev c1 r1 w1 ev1 H Hf.
   - inversion H; subst; exact Hf.
   - destruct s as [f|o].
     + destruct (f c r) as [a|].
-      * destruct (exec M a c r) as [[c' r'] t] eqn:E.
+      * destruct (exec M true a c r) as [[c' r'] t] eqn:E.
         eapply IH; eauto. eapply exec_flag_mono; eauto.
       * eapply IH; eauto.
     + eapply IH; eauto.
 Qed.
 
 Lemma run_steps_inert (L : FlagLaws) recur steps : forall c r w ev c1 r1 w1 ev1,
-  steps_nocb steps ->
-  run_steps M recur steps c r w ev = (c1, r1, w1, ev1) -> flag r1 = false ->
+  run_steps M true recur steps c r w ev = (c1, r1, w1, ev1) -> flag r1 = false ->
   c1 = c /\ r1 = r /\ w1 = w /\ ev1 = ev.
 Proof.
-  induction steps as [|s rest IH]; simpl; intros c r w ev c1 r1 w1 ev1 Hn H Hf.
+  induction steps as [|s rest IH]; simpl; intros c r w ev c1 r1 w1 ev1 H Hf.
   - inversion H; subst; auto.
-  - assert (Hn' : steps_nocb rest) by (intros f Hin; apply Hn; right; exact Hin).
-    destruct s as [f|o].
+  - destruct s as [f|o].
     + destruct (f c r) as [a|] eqn:Ef.
-      * destruct (exec M a c r) as [[c' r'] t] eqn:E.
-        destruct (IH _ _ _ _ _ _ _ _ Hn' H Hf) as (-> & -> & -> & ->).
-        assert (Hcb : is_cb a = false) by (eapply Hn; [left; reflexivity | exact Ef]).
-        destruct (exec_unflagged L a c r c' r' t Hcb E Hf) as (-> & -> & ->).
+      * destruct (exec M true a c r) as [[c' r'] t] eqn:E.
+        destruct (IH _ _ _ _ _ _ _ _ H Hf) as (-> & -> & -> & ->).
+        destruct (exec_unflagged L a c r c' r' t E Hf) as (-> & -> & ->).
         unfold handle_trace. simpl. rewrite app_nil_r. auto.
       * eapply IH; eauto.
-    + destruct (IH _ _ _ _ _ _ _ _ Hn' H Hf) as (-> & -> & -> & ->).
+    + destruct (IH _ _ _ _ _ _ _ _ H Hf) as (-> & -> & -> & ->).
       rewrite Hf. auto.
 Qed.
 
 Lemma run_pats_inert (L : FlagLaws) recur ps o : forall c r w ev c1 r1 w1 ev1,
-  (forall p, In p ps -> pat_nocb p) ->
-  run_pats M recur ps o c r w ev = (c1, r1, w1, ev1) -> flag r1 = false ->
+  run_pats M true recur ps o c r w ev = (c1, r1, w1, ev1) -> flag r1 = false ->
   c1 = c /\ r1 = r /\ w1 = w /\ ev1 = ev.
 Proof.
-  induction ps as [|p rest IH]; simpl; intros c r w ev c1 r1 w1 ev1 Hn H Hf.
+  induction ps as [|p rest IH]; simpl; intros c r w ev c1 r1 w1 ev1 H Hf.
   - inversion H; subst; auto.
-  - destruct (run_steps M recur (p c o) c r w ev) as [[[c' r'] w'] ev'] eqn:E.
+  - destruct (run_steps M true recur (p c o) c r w ev) as [[[c' r'] w'] ev'] eqn:E.
     destruct (flag r') eqn:Hf'.
     + inversion H; subst. congruence.
-    + assert (Hp : steps_nocb (p c o)) by (apply Hn; left; reflexivity).
-      destruct (run_steps_inert L _ _ _ _ _ _ _ _ _ _ Hp E Hf') as (-> & -> & -> & ->).
+    + destruct (run_steps_inert L _ _ _ _ _ _ _ _ _ _ E Hf') as (-> & -> & -> & ->).
       eapply IH; eauto.
 Qed.
 
 Lemma run_match_inert (L : FlagLaws) recur m o c w c1 r1 w1 ev1 :
-  matcher_nocb m ->
-  run_match M recur m o c w = (c1, r1, w1, ev1) -> flag r1 = false ->
+  run_match M true recur m o c w = (c1, r1, w1, ev1) -> flag r1 = false ->
   c1 = c /\ w1 = w /\ ev1 = [].
 Proof.
-  intros Hn H Hf. unfold run_match in H. destruct m as [p|dce ps]; simpl in Hn.
-  - destruct (run_steps_inert L _ _ _ _ _ _ _ _ _ _ (Hn c o) H Hf) as (Hc & Hr & Hw & He). auto.
+  intros H Hf. unfold run_match in H. destruct m as [p|dce ps].
+  - destruct (run_steps_inert L _ _ _ _ _ _ _ _ _ _ H Hf) as (Hc & Hr & Hw & He). auto.
   - destruct (dce && trivially_dead M c o).
     + unfold x_erase in H. inversion H; subst. discriminate Hf.
-    + destruct (run_pats_inert L _ _ _ _ _ _ _ _ _ _ _ Hn H Hf) as (Hc & Hr & Hw & He). auto.
+    + destruct (run_pats_inert L _ _ _ _ _ _ _ _ _ _ _ H Hf) as (Hc & Hr & Hw & He). auto.
 Qed.
 
 (* the IR result and the flag of a match do not depend on the worklist contents *)
 Lemma run_steps_indep recur steps : forall c r w ev w' ev',
-  fst (fst (run_steps M recur steps c r w ev)) = fst (fst (run_steps M recur steps c r w' ev')).
+  fst (fst (run_steps M true recur steps c r w ev)) = fst (fst (run_steps M true recur steps c r w' ev')).
 Proof.
   induction steps as [|s rest IH]; simpl; intros; auto.
   destruct s as [f|o].
-  - destruct (f c r) as [a|]; auto. destruct (exec M a c r) as [[c' r'] t]. apply IH.
+  - destruct (f c r) as [a|]; auto. destruct (exec M true a c r) as [[c' r'] t]. apply IH.
   - apply IH.
 Qed.
 
 Lemma run_pats_indep recur ps o : forall c r w ev w' ev',
-  fst (fst (run_pats M recur ps o c r w ev)) = fst (fst (run_pats M recur ps o c r w' ev')).
+  fst (fst (run_pats M true recur ps o c r w ev)) = fst (fst (run_pats M true recur ps o c r w' ev')).
 Proof.
   induction ps as [|p rest IH]; simpl; intros; auto.
   pose proof (run_steps_indep recur (p c o) c r w ev w' ev') as H.
-  destruct (run_steps M recur (p c o) c r w ev) as [[[c1 r1] w1] ev1].
-  destruct (run_steps M recur (p c o) c r w' ev') as [[[c2 r2] w2] ev2].
+  destruct (run_steps M true recur (p c o) c r w ev) as [[[c1 r1] w1] ev1].
+  destruct (run_steps M true recur (p c o) c r w' ev') as [[[c2 r2] w2] ev2].
   simpl in H. inversion H; subst. destruct (flag r2); auto.
 Qed.
 
 Lemma run_match_indep recur m o c w w' :
-  fst (fst (run_match M recur m o c w)) = fst (fst (run_match M recur m o c w')).
+  fst (fst (run_match M true recur m o c w)) = fst (fst (run_match M true recur m o c w')).
 Proof.
   unfold run_match. destruct m as [p|dce ps].
   - apply run_steps_indep.
@@ -224,8 +207,8 @@ Qed.
 (* "the pattern would not change anything when applied to o": the match leaves the IR as it is
    and has_done_action unset, whatever the worklist holds *)
 Definition quiescent (recur : bool) (m : matcher M) (c : Ct) (o : op) : Prop :=
-  forall w, fst (fst (fst (run_match M recur m o c w))) = c /\
-            flag (snd (fst (fst (run_match M recur m o c w)))) = false.
+  forall w, fst (fst (fst (run_match M true recur m o c w))) = c /\
+            flag (snd (fst (fst (run_match M true recur m o c w)))) = false.
 
 (* ------------------------------------------------------------------ *)
 (* worklist facts *)
@@ -263,8 +246,8 @@ Qed.
 (* ------------------------------------------------------------------ *)
 (* a pass of _process_worklist that reports no modification has left the IR untouched and has
    found every operation of its worklist quiescent *)
-Lemma process_unflagged (L : FlagLaws) recur m pick (Hn : matcher_nocb m) fuel : forall w s s',
-  process M fuel recur m pick w s = Some s' -> ws_flag s' = false ->
+Lemma process_unflagged (L : FlagLaws) recur m pick fuel : forall w s s',
+  process M true fuel recur m pick w s = Some s' -> ws_flag s' = false ->
   ws_flag s = false /\ ws_c s' = ws_c s /\ forall o, In o w -> quiescent recur m (ws_c s) o.
 Proof.
   induction fuel as [|f IH]; simpl; intros w s s' H Hf; [discriminate|].
@@ -272,16 +255,16 @@ Proof.
   - inversion H; subst. split; auto. split; auto. intros o [].
   - set (w := x :: w0) in *.
     set (o := popped pick (ws_k s) w) in *.
-    destruct (run_match M recur m o (ws_c s) (wl_remove o w)) as [[[c1 r1] w1] ev1] eqn:E.
+    destruct (run_match M true recur m o (ws_c s) (wl_remove o w)) as [[[c1 r1] w1] ev1] eqn:E.
     destruct (IH _ _ _ H Hf) as (Hfs & Hc & Hq). simpl in Hfs, Hc, Hq.
     apply orb_false_iff in Hfs. destruct Hfs as [Hfs Hfr].
-    destruct (run_match_inert L _ _ _ _ _ _ _ _ _ Hn E Hfr) as (Hc1 & Hw1 & _).
+    destruct (run_match_inert L _ _ _ _ _ _ _ _ _ E Hfr) as (Hc1 & Hw1 & _).
     split; auto. split; [congruence|].
     intros o' Ho'. destruct (Nat.eq_dec o' o) as [Heq|Hne].
     + rewrite Heq. intros w'.
       pose proof (run_match_indep recur m o (ws_c s) w' (wl_remove o w)) as Hi.
       rewrite E in Hi. simpl in Hi.
-      destruct (run_match M recur m o (ws_c s) w') as [[[c2 r2] w2] ev2]. simpl in *.
+      destruct (run_match M true recur m o (ws_c s) w') as [[[c2 r2] w2] ev2]. simpl in *.
       inversion Hi. split; [exact Hc1 | exact Hfr].
     + rewrite <- Hc1. apply Hq. rewrite Hw1. apply wl_remove_in. auto.
 Qed.
@@ -289,11 +272,11 @@ Qed.
 (* every successful rewrite_region with apply_recursively ends with a pass that reported no
    modification *)
 Lemma outer_last n fuel cf m pick : forall s s',
-  outer M n fuel cf m pick s = Some s' ->
-  exists s0, one_pass M fuel cf m pick s0 = Some s' /\ ws_flag s' = false.
+  outer M true n fuel cf m pick s = Some s' ->
+  exists s0, one_pass M true fuel cf m pick s0 = Some s' /\ ws_flag s' = false.
 Proof.
   induction n as [|n IH]; simpl; intros s s' H; [discriminate|].
-  destruct (one_pass M fuel cf m pick s) as [s1|] eqn:E; [|discriminate].
+  destruct (one_pass M true fuel cf m pick s) as [s1|] eqn:E; [|discriminate].
   destruct (ws_flag s1) eqn:Hf.
   - eapply IH; eauto.
   - inversion H; subst. eauto.
@@ -301,52 +284,50 @@ Qed.
 
 (* C11_fixpoint *)
 Theorem fixpoint (L : FlagLaws) n fuel cf m pick c s ret :
-  matcher_nocb m -> apply_recursively cf = true ->
-  rewrite_region M n fuel cf m pick c = Some (s, ret) ->
+  apply_recursively cf = true ->
+  rewrite_region M true n fuel cf m pick c = Some (s, ret) ->
   forall o, In o (walk M (negb (walk_reverse cf)) (negb (walk_regions_first cf)) (ws_c s)) ->
             quiescent true m (ws_c s) o.
 Proof.
-  intros Hn Hrec H o Ho. unfold rewrite_region in H.
-  destruct (one_pass M fuel cf m pick _) as [s1|] eqn:E1; [|discriminate].
+  intros Hrec H o Ho. unfold rewrite_region in H.
+  destruct (one_pass M true fuel cf m pick _) as [s1|] eqn:E1; [|discriminate].
   rewrite Hrec in H. simpl in H.
-  assert (Hlast : exists s0, one_pass M fuel cf m pick s0 = Some s /\ ws_flag s = false).
+  assert (Hlast : exists s0, one_pass M true fuel cf m pick s0 = Some s /\ ws_flag s = false).
   { destruct (ws_flag s1) eqn:Hf.
-    - destruct (outer M n fuel cf m pick s1) as [s2|] eqn:E2; [|discriminate].
+    - destruct (outer M true n fuel cf m pick s1) as [s2|] eqn:E2; [|discriminate].
       inversion H; subst. eapply outer_last; eauto.
     - inversion H; subst. eauto. }
   destruct Hlast as (s0 & Hp & Hf). unfold one_pass in Hp. rewrite Hrec in Hp.
-  destruct (process_unflagged L true m pick Hn _ _ _ _ Hp Hf) as (_ & Hc & Hq). simpl in Hc, Hq.
+  destruct (process_unflagged L true m pick _ _ _ _ Hp Hf) as (_ & Hc & Hq). simpl in Hc, Hq.
   rewrite Hc in Ho. rewrite Hc. apply Hq. apply populate_in. exact Ho.
 Qed.
 
 (* C11_returns_true_if_changed *)
 Theorem returns_true_if_changed (L : FlagLaws) n fuel cf m pick c s ret :
-  matcher_nocb m ->
-  rewrite_region M n fuel cf m pick c = Some (s, ret) ->
+  rewrite_region M true n fuel cf m pick c = Some (s, ret) ->
   ws_c s <> c -> ret = true.
 Proof.
-  intros Hn H Hne. unfold rewrite_region in H.
-  destruct (one_pass M fuel cf m pick _) as [s1|] eqn:E1; [|discriminate].
+  intros H Hne. unfold rewrite_region in H.
+  destruct (one_pass M true fuel cf m pick _) as [s1|] eqn:E1; [|discriminate].
   assert (Hfirst : ws_flag s1 = false -> ws_c s1 = c).
   { intros Hf. unfold one_pass in E1.
-    destruct (process_unflagged L _ m pick Hn _ _ _ _ E1 Hf) as (_ & Hc & _). exact Hc. }
+    destruct (process_unflagged L _ m pick _ _ _ _ E1 Hf) as (_ & Hc & _). exact Hc. }
   destruct (negb (apply_recursively cf)).
   - inversion H; subst s1 ret. destruct (ws_flag s) eqn:Hf; [reflexivity|].
     exfalso. apply Hne. apply Hfirst. reflexivity.
   - destruct (ws_flag s1) eqn:Hf.
-    + destruct (outer M n fuel cf m pick s1); inversion H; subst; reflexivity.
+    + destruct (outer M true n fuel cf m pick s1); inversion H; subst; reflexivity.
     + inversion H; subst s1 ret. exfalso. apply Hne. apply Hfirst. reflexivity.
 Qed.
 
 (* has_done_action is set whenever a match mutated the IR *)
 Theorem match_flag_sound (L : FlagLaws) recur m o c w :
-  matcher_nocb m ->
-  fst (fst (fst (run_match M recur m o c w))) <> c ->
-  flag (snd (fst (fst (run_match M recur m o c w)))) = true.
+  fst (fst (fst (run_match M true recur m o c w))) <> c ->
+  flag (snd (fst (fst (run_match M true recur m o c w)))) = true.
 Proof.
-  intros Hn Hne. destruct (run_match M recur m o c w) as [[[c1 r1] w1] ev1] eqn:E. simpl in *.
+  intros Hne. destruct (run_match M true recur m o c w) as [[[c1 r1] w1] ev1] eqn:E. simpl in *.
   destruct (flag r1) eqn:Hf; auto.
-  destruct (run_match_inert L _ _ _ _ _ _ _ _ _ Hn E Hf) as (Hc & _). contradiction.
+  destruct (run_match_inert L _ _ _ _ _ _ _ _ _ E Hf) as (Hc & _). contradiction.
 Qed.
 
 End Generic.
@@ -383,13 +364,15 @@ Definition kills (p : prim) (c : Ct) : list op :=
 (* `wf`: the part of IR well-formedness the driver relies on (use lists only name live users, the
    region walk only yields live ops); every primitive preserves it. *)
 Variable wf : Ct -> Prop.
+(* `ip_ok c ip`: the insertion point names an existing position (InsertPoint's own validity check) *)
+Variable ip_ok : Ct -> ipoint -> Prop.
 Record LiveLaws : Prop := {
   ll_wf_prim : forall p c, wf c -> wf (run_prim p c);
   ll_users : forall c v u, wf c -> In u (uses M c v) -> In (fst u) (alive M c);
   ll_walk : forall c rev rf o, wf c -> In o (walk M rev rf c) -> In o (alive M c);
   ll_survive : forall p c x, In x (alive M c) -> ~ In x (kills p c) -> In x (alive M (run_prim p c));
   ll_leaf : forall c o x, has_regions M c o = false -> In x (subops M c o) -> x = o;
-  ll_inserted : forall news ip c n, In n news -> In (no_id n) (alive M (p_insert M news ip c))
+  ll_inserted : forall news ip c n, ip_ok c ip -> In n news -> In (no_id n) (alive M (p_insert M news ip c))
 }.
 
 (* obligations of the pattern (documented preconditions): the op it erases / replaces / notifies is
@@ -408,8 +391,10 @@ Definition replace_mid (o : op) (news : list newop) (res : option (list (option 
   fst (fst (x_rauw_all M (combine (results M c1 o) nres) c1 r1)).
 Definition live_pre (a : action) (c : Ct) (r : rw) : Prop :=
   match a with
+  | AInsert _ ip => ip_ok c (real_ip r ip)
   | AErase o => In o (alive M c) /\ owners_alive c o
-  | AReplace o news res => In o (alive M c) /\ owners_alive (replace_mid o news res c r) o
+  | AReplace o news res =>
+      ip_ok c (IPBefore o) /\ In o (alive M c) /\ owners_alive (replace_mid o news res c r) o
   | ANotify o => In o (alive M c)
   | ARetype v _ => forall p, def_parent M c v = Some p -> In p (alive M c)
   | _ => True
@@ -460,10 +445,10 @@ Proof.
 Qed.
 
 Lemma x_insert_live (L : LiveLaws) recur news ip c r c1 r1 t :
-  x_insert M news ip c r = (c1, r1, t) -> wf c ->
+  x_insert M news ip c r = (c1, r1, t) -> wf c -> ip_ok c (real_ip r ip) ->
   wf c1 /\ forall w, sub w c -> sub (handle_trace M recur t w) c1.
 Proof.
-  unfold x_insert. intros H Hwf. destruct news as [|n news].
+  unfold x_insert. intros H Hwf Hip. destruct news as [|n news].
   - inversion H; subst. split; auto.
   - inversion H; subst. clear H. set (l := n :: news) in *.
     split; [apply (ll_wf_prim L (PInsert l (real_ip r ip))); auto|].
@@ -476,7 +461,7 @@ Proof.
     { induction l' as [|n' l' IH]; simpl; intros w' Hin Hs'; auto.
       unfold handle_trace in *. simpl. apply IH.
       - intros n0 Hn0. apply Hin. right. exact Hn0.
-      - destruct recur; auto. apply sub_push; [exact Hs'|]. apply (ll_inserted L). apply Hin. left. reflexivity. }
+      - destruct recur; auto. apply sub_push; [exact Hs'|]. apply (ll_inserted L); [exact Hip|]. apply Hin. left. reflexivity. }
     apply (G l w); [intros n0 Hn0; exact Hn0 | exact Hs1].
 Qed.
 
@@ -547,7 +532,7 @@ Proof.
 Qed.
 
 Lemma exec_live (L : LiveLaws) recur a c r c1 r1 t :
-  exec M a c r = (c1, r1, t) -> wf c -> live_pre a c r ->
+  exec M true a c r = (c1, r1, t) -> wf c -> live_pre a c r ->
   wf c1 /\ forall w, sub w c -> sub (handle_trace M recur t w) c1.
 Proof.
   intros H Hwf Hp. destruct a; simpl in H.
@@ -566,11 +551,11 @@ Proof.
       * apply (sub_survive L); auto.
       * intros o Ho. apply in_map_iff in Ho. destruct Ho as (u & <- & Hu). apply filter_In in Hu. destruct Hu as [Hu _].
         apply (ll_survive L); [eapply (ll_users L); eauto | intros []].
-  - destruct Hp as [Ho Hd]. unfold replace_mid in Hd. unfold x_replace in H.
+  - destruct Hp as [Hip [Ho Hd]]. unfold replace_mid in Hd. unfold x_replace in H.
     destruct (x_insert M news (IPBefore o) c (set_flag r)) as [[c' r'] t'] eqn:E1.
     destruct (x_rauw_all M _ c' r') as [[c'' r''] t''] eqn:E2. simpl in Hd.
     destruct (x_erase M o c'' r'') as [[c3 r3] t4] eqn:E3. inversion H; subst. clear H.
-    destruct (x_insert_live L recur _ _ _ _ _ _ _ E1 Hwf) as [Hwf1 Hs1].
+    destruct (x_insert_live L recur _ _ _ _ _ _ _ E1 Hwf Hip) as [Hwf1 Hs1].
     destruct (x_rauw_all_live L recur _ _ _ _ _ _ E2 Hwf1) as [Hwf2 Hs2].
     assert (Ho1 : In o (alive M c')).
     { unfold x_insert in E1. destruct news; inversion E1; subst; auto.
@@ -637,7 +622,7 @@ Definition matcher_pre (m : matcher M) : Prop :=
   end.
 
 Lemma run_steps_live (L : LiveLaws) recur steps : forall c r w ev c1 r1 w1 ev1,
-  steps_pre steps -> run_steps M recur steps c r w ev = (c1, r1, w1, ev1) ->
+  steps_pre steps -> run_steps M true recur steps c r w ev = (c1, r1, w1, ev1) ->
   wf c -> sub w c -> wf c1 /\ sub w1 c1.
 Proof.
   induction steps as [|s rest IH]; simpl; intros c r w ev c1 r1 w1 ev1 Hp H Hwf Hs.
@@ -645,7 +630,7 @@ Proof.
   - assert (Hp' : steps_pre rest) by (intros f Hin; apply Hp; right; exact Hin).
     destruct s as [f|o].
     + destruct (f c r) as [a|] eqn:Ef.
-      * destruct (exec M a c r) as [[c' r'] t] eqn:E.
+      * destruct (exec M true a c r) as [[c' r'] t] eqn:E.
         assert (Hpre : live_pre a c r) by (eapply Hp; eauto; left; reflexivity).
         destruct (exec_live L recur _ _ _ _ _ _ E Hwf Hpre) as [Hwf' Hs'].
         eapply IH; eauto.
@@ -656,12 +641,12 @@ Proof.
 Qed.
 
 Lemma run_pats_live (L : LiveLaws) recur ps o : forall c r w ev c1 r1 w1 ev1,
-  (forall p, In p ps -> pat_pre p) -> run_pats M recur ps o c r w ev = (c1, r1, w1, ev1) ->
+  (forall p, In p ps -> pat_pre p) -> run_pats M true recur ps o c r w ev = (c1, r1, w1, ev1) ->
   wf c -> sub w c -> wf c1 /\ sub w1 c1.
 Proof.
   induction ps as [|p rest IH]; simpl; intros c r w ev c1 r1 w1 ev1 Hp H Hwf Hs.
   - inversion H; subst; auto.
-  - destruct (run_steps M recur (p c o) c r w ev) as [[[c' r'] w'] ev'] eqn:E.
+  - destruct (run_steps M true recur (p c o) c r w ev) as [[[c' r'] w'] ev'] eqn:E.
     assert (Hpp : steps_pre (p c o)) by (apply Hp; left; reflexivity).
     destruct (run_steps_live L _ _ _ _ _ _ _ _ _ _ Hpp E Hwf Hs) as [Hwf' Hs'].
     destruct (flag r').
@@ -670,7 +655,7 @@ Proof.
 Qed.
 
 Lemma run_match_live (L : LiveLaws) recur m o c w c1 r1 w1 ev1 :
-  matcher_pre m -> run_match M recur m o c w = (c1, r1, w1, ev1) ->
+  matcher_pre m -> run_match M true recur m o c w = (c1, r1, w1, ev1) ->
   wf c -> In o (alive M c) -> sub w c -> wf c1 /\ sub w1 c1.
 Proof.
   intros Hp H Hwf Ho Hs. unfold run_match in H. destruct m as [p|dce ps]; simpl in Hp.
@@ -688,7 +673,7 @@ Qed.
 Definition inv_ok (s : wstate M) : Prop := forall o c, In (o, c) (ws_inv s) -> In o (alive M c).
 
 Lemma process_live (L : LiveLaws) recur m pick (Hp : matcher_pre m) fuel : forall w s s',
-  process M fuel recur m pick w s = Some s' ->
+  process M true fuel recur m pick w s = Some s' ->
   wf (ws_c s) -> sub w (ws_c s) -> inv_ok s -> wf (ws_c s') /\ inv_ok s'.
 Proof.
   induction fuel as [|f IH]; simpl; intros w s s' H Hwf Hs Hi; [discriminate|].
@@ -697,7 +682,7 @@ Proof.
   - set (w := x :: w0) in *.
     set (o := popped pick (ws_k s) w) in *.
     assert (Ho : In o w) by (apply popped_in; discriminate).
-    destruct (run_match M recur m o (ws_c s) (wl_remove o w)) as [[[c1 r1] w1] ev1] eqn:E.
+    destruct (run_match M true recur m o (ws_c s) (wl_remove o w)) as [[[c1 r1] w1] ev1] eqn:E.
     assert (Hs0 : sub (wl_remove o w) (ws_c s)).
     { intros y Hy. apply wl_remove_in in Hy. apply Hs. tauto. }
     destruct (run_match_live L _ _ _ _ _ _ _ _ _ Hp E Hwf (Hs o Ho) Hs0) as [Hwf1 Hs1].
@@ -719,17 +704,17 @@ Proof.
 Qed.
 
 Lemma one_pass_live (L : LiveLaws) fuel cf m pick (Hp : matcher_pre m) s s' :
-  one_pass M fuel cf m pick s = Some s' -> wf (ws_c s) -> inv_ok s -> wf (ws_c s') /\ inv_ok s'.
+  one_pass M true fuel cf m pick s = Some s' -> wf (ws_c s) -> inv_ok s -> wf (ws_c s') /\ inv_ok s'.
 Proof.
   unfold one_pass. intros H Hwf Hi.
   eapply process_live in H; eauto; simpl; auto. apply populate_sub; auto.
 Qed.
 
 Lemma outer_live (L : LiveLaws) fuel cf m pick (Hp : matcher_pre m) n : forall s s',
-  outer M n fuel cf m pick s = Some s' -> wf (ws_c s) -> inv_ok s -> wf (ws_c s') /\ inv_ok s'.
+  outer M true n fuel cf m pick s = Some s' -> wf (ws_c s) -> inv_ok s -> wf (ws_c s') /\ inv_ok s'.
 Proof.
   induction n as [|n IH]; simpl; intros s s' H Hwf Hi; [discriminate|].
-  destruct (one_pass M fuel cf m pick s) as [s1|] eqn:E; [|discriminate].
+  destruct (one_pass M true fuel cf m pick s) as [s1|] eqn:E; [|discriminate].
   destruct (one_pass_live L _ _ _ _ Hp _ _ E Hwf Hi) as [Hwf1 Hi1].
   destruct (ws_flag s1).
   - eapply IH; eauto.
@@ -739,18 +724,18 @@ Qed.
 (* C11_no_stale *)
 Theorem no_stale (L : LiveLaws) n fuel cf m pick c s ret :
   matcher_pre m -> wf c ->
-  rewrite_region M n fuel cf m pick c = Some (s, ret) ->
+  rewrite_region M true n fuel cf m pick c = Some (s, ret) ->
   forall o c', In (o, c') (ws_inv s) -> In o (alive M c').
 Proof.
   intros Hp Hwf H. unfold rewrite_region in H.
-  destruct (one_pass M fuel cf m pick _) as [s1|] eqn:E1; [|discriminate].
+  destruct (one_pass M true fuel cf m pick _) as [s1|] eqn:E1; [|discriminate].
   assert (Hi0 : inv_ok {| ws_c := c; ws_flag := false; ws_k := 0; ws_ev := []; ws_inv := [] |})
     by (intros o c' []).
   destruct (one_pass_live L _ _ _ _ Hp _ _ E1 Hwf Hi0) as [Hwf1 Hi1].
   destruct (negb (apply_recursively cf)).
   - inversion H; subst. exact Hi1.
   - destruct (ws_flag s1).
-    + destruct (outer M n fuel cf m pick s1) as [s2|] eqn:E2; [|discriminate].
+    + destruct (outer M true n fuel cf m pick s1) as [s2|] eqn:E2; [|discriminate].
       inversion H; subst. eapply outer_live; eauto.
     + inversion H; subst. exact Hi1.
 Qed.
@@ -887,7 +872,7 @@ Qed.
 
 (* C11_events_complete *)
 Theorem events_complete (L : EvLaws) a c r c1 r1 t o :
-  no_silent_rewrite a -> exec M a c r = (c1, r1, t) -> changed c c1 o -> covered t o.
+  no_silent_rewrite a -> exec M true a c r = (c1, r1, t) -> changed c c1 o -> covered t o.
 Proof.
   intros Hns H Hc. destruct a; simpl in H.
   - eapply x_insert_events; eauto.
